@@ -784,7 +784,7 @@ def unit_kdf(ctx):
     chunk, nch, reps, nmsg = (ctx.params[k] for k in ("chunk", "nch", "reps", "nmsg"))
     work = [("krp", n, m) for n in KLENS for m in KLENS if m <= n for _ in range(reps)]
     work += [("hmac", kl, j) for kl in range(0, 97) for j in range(nmsg)]
-    work += [("pbkdf2", it, 0) for it in range(1, 51)]
+    work += [("pbkdf2", it, 0) for it in range(1, 51) for _ in range(max(1, reps // 10))]
     for idx, (kind, a, b) in enumerate(work):
         if idx % nch != chunk:
             continue
@@ -1076,7 +1076,7 @@ def jobs(tier, scale=1.0):
     # FMT first: its largest cases are the slowest
     nf = 16
     for k in range(nf):
-        add("unit_fmt", chunk=k, nch=nf, nrand=sc(2 if q else 12), allkeys=(not q) and scale >= 0.5)
+        add("unit_fmt", chunk=k, nch=nf, nrand=sc(2 if q else 24), allkeys=(not q) and scale >= 0.5)
     if q or scale < 1:
         for k in range(8):
             add("unit_fmt_table", mode="allmods", lo=2 + k * 8192, hi=min(65537, 2 + (k + 1) * 8192))
@@ -1086,10 +1086,10 @@ def jobs(tier, scale=1.0):
         J.extend(fmt_table_full_jobs())
     nw = 16
     for k in range(nw):
-        add("unit_wbl", chunk=k, nch=nw, reps=sc(2 if q else 8), tamper_every=2 if q else 1)
+        add("unit_wbl", chunk=k, nch=nw, reps=sc(2 if q else 16), tamper_every=2 if q else 1)
     nm = 8 if q else 16
     for k in range(nm):
-        add("unit_modes", chunk=k, nch=nm, reps=sc(6 if q else 32))
+        add("unit_modes", chunk=k, nch=nm, reps=sc(6 if q else 64))
     na = 8 if q else 16
     for k in range(na):
         add("unit_aead", chunk=k, nch=na, nad=3 if q or scale < 0.5 else len(MSG_BOUNDARY), tamper_every=2 if q else 1)
@@ -1097,9 +1097,9 @@ def jobs(tier, scale=1.0):
     for k in range(nk):
         add("unit_kdf", chunk=k, nch=nk, reps=sc(4 if q else 40), nmsg=3 if q or scale < 0.5 else len(MSG_BOUNDARY))
     for k in range(4):
-        add("unit_block", chunk=k, n=sc(300 if q else 3000))
+        add("unit_block", chunk=k, n=sc(300 if q else 6000))
     for k in range(1 if q else 4):
-        add("unit_carry", chunk=k, reps=sc(2 if q else 20))
+        add("unit_carry", chunk=k, reps=sc(2 if q else 40))
     add("unit_addbits", n=sc(300 if q else 5000))
     return J
 
@@ -1141,7 +1141,7 @@ def main(run):
     js = [dict(j, cfg="asan64") for j in jobs(run.tier)]
     if not q:
         for cfg in ("asan32", "rel64"):
-            js += [dict(j, cfg=cfg) for j in jobs("thorough", 0.15)]
+            js += [dict(j, cfg=cfg) for j in jobs("thorough", 0.15) if j["unit"] != "c01:unit_selftest"]
         # the block-count routine works on machine words: the complete table also with 32-bit words
         js += [dict(j, cfg="asan32") for j in fmt_table_full_jobs()]
     run.run_jobs(js)
